@@ -135,6 +135,51 @@ fn snapshot(t: &mut Tracker, name: &str) {
 	let _ = pv::scratch::copy_file_sparse(&src, &dst);
 }
 
+/// Only the byte range `[off, off+len)` of the file has become durable (msync of a part of a
+/// mapping): copy just that range into the shadow.
+fn snapshot_range(t: &mut Tracker, name: &str, off: u64, len: u64) {
+	use std::io::{Read, Seek, SeekFrom, Write};
+	t.sync_events += 1;
+	if !t.keep_shadow {
+		return
+	}
+	let src = t.root.join(name);
+	let dst = t.shadow.join(name);
+	let (mut f, mut o) = match (std::fs::File::open(&src), std::fs::OpenOptions::new().create(true).write(true).open(&dst)) {
+		(Ok(f), Ok(o)) => (f, o),
+		_ => return,
+	};
+	let flen = f.metadata().map(|m| m.len()).unwrap_or(0);
+	let end = (off.saturating_add(len)).min(flen);
+	if off >= end {
+		return
+	}
+	// sizes are durable immediately (directory-level operation in the model)
+	let _ = o.set_len(flen.max(o.metadata().map(|m| m.len()).unwrap_or(0)));
+	let mut pos = off;
+	let mut buf = vec![0u8; 1 << 16];
+	if f.seek(SeekFrom::Start(off)).is_err() || o.seek(SeekFrom::Start(off)).is_err() {
+		return
+	}
+	while pos < end {
+		let n = ((end - pos) as usize).min(buf.len());
+		if f.read_exact(&mut buf[..n]).is_err() {
+			return
+		}
+		if buf[..n].iter().any(|b| *b != 0) {
+			if o.seek(SeekFrom::Start(pos)).is_err() || o.write_all(&buf[..n]).is_err() {
+				return
+			}
+		} else {
+			// zeros: make sure stale shadow bytes are cleared too
+			if o.seek(SeekFrom::Start(pos)).is_err() || o.write_all(&buf[..n]).is_err() {
+				return
+			}
+		}
+		pos += n as u64;
+	}
+}
+
 /// Compare a table-like file with its shadow, ignoring the index statistics header.
 pub fn differs_from_shadow(t: &Tracker, name: &str) -> Option<String> {
 	let cur = std::fs::read(t.root.join(name)).ok()?;
@@ -211,16 +256,20 @@ pub unsafe extern "C" fn fsync(fd: c_int) -> c_int {
 	r
 }
 
-fn mapping_file(addr: usize) -> Option<PathBuf> {
+/// File backing the mapping that contains `addr`, and the file offset `addr` corresponds to.
+fn mapping_file(addr: usize) -> Option<(PathBuf, u64)> {
 	let maps = std::fs::read_to_string("/proc/self/maps").ok()?;
 	for l in maps.lines() {
-		let range = l.split_whitespace().next()?;
+		let mut it = l.split_whitespace();
+		let range = it.next()?;
+		let _perms = it.next()?;
+		let offset = u64::from_str_radix(it.next()?, 16).ok()?;
 		let mut r = range.split('-');
 		let lo = usize::from_str_radix(r.next()?, 16).ok()?;
 		let hi = usize::from_str_radix(r.next()?, 16).ok()?;
 		if addr >= lo && addr < hi {
 			let at = l.find('/')?;
-			return Some(PathBuf::from(l[at..].trim().trim_end_matches(" (deleted)")))
+			return Some((PathBuf::from(l[at..].trim().trim_end_matches(" (deleted)")), offset + (addr - lo) as u64))
 		}
 	}
 	None
@@ -232,13 +281,14 @@ pub unsafe extern "C" fn msync(addr: *mut c_void, len: usize, flags: c_int) -> c
 	if intercept_gate() {
 		IN_HOOK.store(true, Ordering::SeqCst);
 		let mut fail = false;
-		if let (Some(t), Some(p)) = (tracker(), mapping_file(addr as usize)) {
+		if let (Some(t), Some((p, off))) = (tracker(), mapping_file(addr as usize)) {
 			if let Some(name) = db_file_name(t, &p) {
 				if inject(&name) {
 					fail = true;
 				} else {
 					count(t, "msync");
-					snapshot(t, &name);
+					// only the range named by the call becomes durable
+					snapshot_range(t, &name, off, len as u64);
 				}
 			}
 		}
